@@ -10,13 +10,12 @@ import (
 	"net/http"
 	"os"
 	"path/filepath"
+	"runtime"
 	"strings"
 	"sync"
 	"testing"
 
-	"github.com/google/martian/v3/body"
 	"github.com/google/martian/v3/proxyutil"
-	"github.com/google/martian/v3/static"
 	"pgregory.net/rapid"
 
 	"verifharness/internal/kit"
@@ -31,20 +30,27 @@ type SeqContent struct {
 	Seed uint64 `json:"seed"`
 }
 
+// SeqReq. Rewrite (mode "rewrite", static only): before this request the file
+// of Content is rewritten in place to hold kit.Bytes(Rewrite.Seed, Rewrite.Len).
 type SeqReq struct {
-	Content int    `json:"content"`
-	Range   string `json:"range"`
+	Content int         `json:"content"`
+	Range   string      `json:"range"`
+	Rewrite *SeqContent `json:"rewrite,omitempty"`
 }
 
 // SeqCase. Mode: "batch" = every ModifyResponse in order, then every body is
 // read in order; "batch2" = the ModifyResponse calls are made from two
 // goroutines (even / odd requests), then every body is read; "conns" = two
 // goroutines, each producing and reading its own responses one at a time
-// (two client connections). The whole schedule is repeated Rounds times with
-// the same modifier instances.
+// (two client connections); "rewrite" (static) = one response at a time,
+// produced and read at once by the SAME static.Modifier, with files rewritten
+// (shrunk, grown) between requests: every answer is judged against the file
+// as it is when the request is made. The whole schedule is repeated Rounds
+// times with the same modifier instances.
 type SeqCase struct {
 	Who      string       `json:"who"`
 	Mode     string       `json:"mode"`
+	ViaJSON  bool         `json:"via_json,omitempty"` // modifiers built by parse.FromJSON
 	Rounds   int          `json:"rounds"`
 	Contents []SeqContent `json:"contents"`
 	Reqs     []SeqReq     `json:"reqs"`
@@ -76,9 +82,16 @@ func runSequence(c SeqCase) kit.Verdict {
 	var newResponse func(i int) (*http.Response, func(*http.Response) error)
 	switch c.Who {
 	case "body":
-		mods := make([]*body.Modifier, len(contents))
+		if c.Mode == "rewrite" {
+			return nil
+		}
+		mods := make([]responseModifier, len(contents))
 		for i, b := range contents {
-			mods[i] = body.NewModifier(b[:len(b):len(b)], "application/octet-stream")
+			m, err := newBodyModifier(b[:len(b):len(b)], c.ViaJSON)
+			if err != nil {
+				return kit.Failf("C20/"+whoLabel("body", c.ViaJSON)+"/json-config/rejected", "parse.FromJSON rejects the documented configuration: %v", err)
+			}
+			mods[i] = m
 		}
 		newResponse = func(i int) (*http.Response, func(*http.Response) error) {
 			r := c.Reqs[i]
@@ -109,21 +122,27 @@ func runSequence(c SeqCase) kit.Verdict {
 				return nil
 			}
 		}
-		mod := static.NewModifier(ft.root)
+		mod, err := newStaticModifier(ft.root, nil, c.ViaJSON)
+		if err != nil {
+			return kit.Failf("C20/"+whoLabel("static", c.ViaJSON)+"/json-config/rejected", "parse.FromJSON rejects the documented configuration: %v", err)
+		}
+		if c.Mode == "rewrite" {
+			return runRewrite(c, ft, mod, contents)
+		}
 		newResponse = func(i int) (*http.Response, func(*http.Response) error) {
 			r := c.Reqs[i]
 			req := newRequest(fmt.Sprintf("http://example.com/seq-%d.bin", r.Content), r.Range)
 			return proxyutil.NewResponse(200, nil, req), mod.ModifyResponse
 		}
-		if staticRuns += len(c.Reqs) * c.Rounds; staticRuns%256 < len(c.Reqs)*c.Rounds {
-			drainLeakedFiles()
+		if staticRuns += len(c.Reqs) * (c.Rounds + 1); staticRuns%1024 < len(c.Reqs)*(c.Rounds+1) {
+			runtime.GC() // see staticRuns: descriptors leaked by Range answers
 		}
 	default:
 		return nil
 	}
 	limit := func(i int) int64 { return readLimit(len(contents[c.Reqs[i].Content]), c.Reqs[i].Range) }
 	judgeReq := func(i int, o obs) kit.Verdict {
-		return judge(c.Who, contents[c.Reqs[i].Content], c.Reqs[i].Range, o)
+		return judge(whoLabel(c.Who, c.ViaJSON), contents[c.Reqs[i].Content], c.Reqs[i].Range, o)
 	}
 
 	// what each request gets when it is alone (produced and read at once)
@@ -147,7 +166,7 @@ func runSequence(c SeqCase) kit.Verdict {
 		if c.Mode != "batch" {
 			shape = "sequence-concurrent"
 		}
-		v.Addf("C20/"+c.Who+"/"+shape+"/"+class, "round %d, request %d of %d (%s, content %d of %d bytes, Range %q) is answered correctly when produced and read on its own, but not in the sequence %s: %s: %s",
+		v.Addf("C20/"+whoLabel(c.Who, c.ViaJSON)+"/"+shape+"/"+class, "round %d, request %d of %d (%s, content %d of %d bytes, Range %q) is answered correctly when produced and read on its own, but not in the sequence %s: %s: %s",
 			round, i, len(c.Reqs), c.Mode, c.Reqs[i].Content, len(contents[c.Reqs[i].Content]), c.Reqs[i].Range, describeSeq(c), w[0].Sig, w[0].Msg)
 	}
 
@@ -209,9 +228,58 @@ func runSequence(c SeqCase) kit.Verdict {
 	return v
 }
 
+// runRewrite: mode "rewrite". mod is the one long-lived static.Modifier.
+func runRewrite(c SeqCase, ft *fileTree, mod responseModifier, contents [][]byte) kit.Verdict {
+	who := whoLabel("static", c.ViaJSON)
+	cur := make([][]byte, len(contents))
+	copy(cur, contents)
+	for _, r := range c.Reqs {
+		if r.Rewrite != nil && (r.Rewrite.Len < 0 || r.Rewrite.Len > maxContent) {
+			return nil
+		}
+	}
+	var v kit.Verdict
+	for round := 0; round < c.Rounds && len(v) == 0; round++ {
+		for i, r := range c.Reqs {
+			rewritten := false
+			if r.Rewrite != nil {
+				nb := kit.Bytes(r.Rewrite.Seed, r.Rewrite.Len)
+				if err := os.WriteFile(filepath.Join(ft.root, fmt.Sprintf("seq-%d.bin", r.Content)), nb, 0o644); err != nil {
+					return kit.Failf("C20/harness/cannot-write-case-file", "%v", err)
+				}
+				cur[r.Content], rewritten = nb, true
+			}
+			if staticSizes && allocBand(r.Range, len(cur[r.Content])) {
+				continue
+			}
+			target := fmt.Sprintf("http://example.com/seq-%d.bin", r.Content)
+			limit := readLimit(len(cur[r.Content]), r.Range)
+			w := judge(who, cur[r.Content], r.Range, observe(proxyutil.NewResponse(200, nil, newRequest(target, r.Range)), mod.ModifyResponse, limit))
+			if len(w) == 0 {
+				continue
+			}
+			fresh, err := newStaticModifier(ft.root, nil, c.ViaJSON)
+			if err != nil {
+				return kit.Failf("C20/"+who+"/json-config/rejected", "%v", err)
+			}
+			if wf := judge(who, cur[r.Content], r.Range, observe(proxyutil.NewResponse(200, nil, newRequest(target, r.Range)), fresh.ModifyResponse, limit)); len(wf) > 0 {
+				v = append(v, w...) // wrong for a fresh instance too: an ordinary range failure
+				continue
+			}
+			_ = rewritten
+			v.Addf("C20/"+who+"/sequence-file-rewritten/answer-from-earlier-file-state", "round %d, request %d of %d (file %d, now %d bytes, Range %q): a fresh static.Modifier answers correctly, the long-lived one that served this path before the file was rewritten does not (sequence %s): %s: %s",
+				round, i, len(c.Reqs), r.Content, len(cur[r.Content]), r.Range, describeSeq(c), w[0].Sig, w[0].Msg)
+		}
+	}
+	return v
+}
+
 func describeSeq(c SeqCase) string {
 	var parts []string
 	for _, r := range c.Reqs {
+		if r.Rewrite != nil {
+			parts = append(parts, fmt.Sprintf("(file %d := %d bytes)", r.Content, r.Rewrite.Len))
+		}
 		parts = append(parts, fmt.Sprintf("[%d:%q]", r.Content, r.Range))
 	}
 	return strings.Join(parts, " ")
@@ -245,7 +313,36 @@ func selected(c SeqCase, i int) int64 {
 	return n
 }
 
+// rewriteShape: in mode "rewrite", whether some file is served, then shrunk /
+// grown, then served again.
+func rewriteShape(c SeqCase) (shrunk, grown bool) {
+	size := map[int]int{}
+	served := map[int]bool{}
+	for i, sc := range c.Contents {
+		size[i] = sc.Len
+	}
+	for round := 0; round < 2; round++ { // the schedule repeats: the second round sees the first one's last state
+		for _, r := range c.Reqs {
+			if r.Rewrite != nil {
+				if served[r.Content] && r.Rewrite.Len < size[r.Content] {
+					shrunk = true
+				}
+				if served[r.Content] && r.Rewrite.Len > size[r.Content] {
+					grown = true
+				}
+				size[r.Content] = r.Rewrite.Len
+			}
+			served[r.Content] = true
+		}
+	}
+	return
+}
+
 func nonTrivialSeq(c SeqCase) bool {
+	if c.Mode == "rewrite" {
+		s, g := rewriteShape(c)
+		return s || g
+	}
 	// at least two multipart answers in flight together
 	n := 0
 	for i := range c.Reqs {
@@ -258,6 +355,19 @@ func nonTrivialSeq(c SeqCase) bool {
 
 func classesSeq(c SeqCase) []string {
 	cl := []string{"who-" + c.Who, "mode-" + c.Mode}
+	if c.ViaJSON {
+		cl = append(cl, "built-from-json-config")
+	}
+	if c.Mode == "rewrite" {
+		s, g := rewriteShape(c)
+		if s {
+			cl = append(cl, "served-shrunk-served-again")
+		}
+		if g {
+			cl = append(cl, "served-grown-served-again")
+		}
+		return cl
+	}
 	multi, single := 0, 0
 	var sizes []int64
 	for i := range c.Reqs {
@@ -291,7 +401,7 @@ func classesSeq(c SeqCase) []string {
 	return cl
 }
 
-var seqRule = "2..4 (content, Range) requests over 1..2 contents of 0..64 KiB answered by ONE body.Modifier per content / ONE static.Modifier: every ModifyResponse is called first (in order, or from two goroutines) and only then is every body read and judged exactly like 'range' (also: two goroutines producing and reading one response at a time); repeated for 3..6 rounds on the same instances; Range headers mostly valid multi-range sets of varied total size (later ones smaller and larger than earlier ones), mixed with single ranges, no Range and generated hostile headers; a response that is right on its own but wrong in the sequence fails; non-trivial = at least two multipart answers in flight"
+var seqRule = "2..4 (content, Range) requests over 1..2 contents of 0..64 KiB answered by ONE body.Modifier per content / ONE static.Modifier: every ModifyResponse is called first (in order, or from two goroutines) and only then is every body read and judged exactly like 'range' (also: two goroutines producing and reading one response at a time); repeated for 3..6 rounds on the same instances; Range headers mostly valid multi-range sets of varied total size (later ones smaller and larger than earlier ones), mixed with single ranges, no Range and generated hostile headers; a response that is right on its own but wrong in the sequence fails; mode rewrite (static): one long-lived static.Modifier serves the same paths again after the files were rewritten in place (shrunk and grown), each answer judged against the file as it is at the time of the request; modifiers built by their constructors or by parse.FromJSON; non-trivial = at least two multipart answers in flight, or (rewrite) a file served, resized and served again"
 
 // genInsideSet draws a valid range set with k specs inside (or a little past) a content of n bytes.
 func genInsideSet(t *rapid.T, n, k int) string {
@@ -318,12 +428,17 @@ func genInsideSet(t *rapid.T, n, k int) string {
 var propSequence = &kit.Prop[SeqCase]{
 	ID: "C20", Name: "sequence", Rule: "rapid: " + seqRule,
 	Run: runSequence, NonTrivial: nonTrivialSeq, Classes: classesSeq,
-	Gates: map[string]float64{"nontrivial": 0.5, "who-body": 0.3, "who-static": 0.3, "mode-batch": 0.3, "later-multipart-smaller": 0.2, "later-multipart-larger": 0.2, "multipart-and-other-mixed": 0.2},
+	Gates: map[string]float64{"nontrivial": 0.5, "who-body": 0.25, "who-static": 0.3, "mode-batch": 0.25, "later-multipart-smaller": 0.15, "later-multipart-larger": 0.15, "multipart-and-other-mixed": 0.15,
+		"served-shrunk-served-again": 0.05, "served-grown-served-again": 0.05, "built-from-json-config": 0.1},
 	Gen: func(t *rapid.T) SeqCase {
 		c := SeqCase{
 			Who:    rapid.SampledFrom([]string{"static", "body"}).Draw(t, "who"),
-			Mode:   rapid.SampledFrom([]string{"batch", "batch", "batch2", "conns"}).Draw(t, "mode"),
-			Rounds: rapid.IntRange(3, 6).Draw(t, "rounds"),
+			Mode:    rapid.SampledFrom([]string{"batch", "batch", "batch2", "conns", "rewrite"}).Draw(t, "mode"),
+			Rounds:  rapid.IntRange(3, 6).Draw(t, "rounds"),
+			ViaJSON: rapid.IntRange(0, 3).Draw(t, "via_json") == 2,
+		}
+		if c.Mode == "rewrite" {
+			c.Who = "static"
 		}
 		for i, n := 0, rapid.IntRange(1, 2).Draw(t, "contents"); i < n; i++ {
 			l := rapid.IntRange(2, 600).Draw(t, "len")
@@ -335,6 +450,22 @@ var propSequence = &kit.Prop[SeqCase]{
 		for i, n := 0, rapid.IntRange(2, 4).Draw(t, "reqs"); i < n; i++ {
 			r := SeqReq{Content: rapid.IntRange(0, len(c.Contents)-1).Draw(t, "content")}
 			l := c.Contents[r.Content].Len
+			if c.Mode == "rewrite" {
+				// headers are drawn for the larger of the old and the new size, so that
+				// they reach into what a shrink removed and what a growth added
+				for _, prev := range c.Reqs {
+					if prev.Content == r.Content && prev.Rewrite != nil {
+						l = prev.Rewrite.Len
+					}
+				}
+				if i > 0 && rapid.IntRange(0, 2).Draw(t, "rewrite") != 1 {
+					nl := rapid.IntRange(0, 2*l+10).Draw(t, "new_len")
+					r.Rewrite = &SeqContent{Len: nl, Seed: uint64(rapid.IntRange(0, 1<<20).Draw(t, "new_seed"))}
+					if nl > l {
+						l = nl
+					}
+				}
+			}
 			switch k := rapid.IntRange(0, 9).Draw(t, "req_kind"); {
 			case k <= 5:
 				r.Range = genInsideSet(t, l, rapid.IntRange(2, 5).Draw(t, "specs"))
@@ -365,7 +496,7 @@ func TestSequence(t *testing.T) {
 
 var propSequenceMatrix = &kit.Prop[SeqCase]{
 	ID: "C20", Name: "sequence-matrix",
-	Rule: "ALL ordered pairs and triples of 6 requests (multi-range small / large / clamped / with suffix, single range, no Range) over two contents (40 and 300 bytes), both modifiers, modes batch and batch2, 4 rounds; " + seqRule,
+	Rule: "ALL ordered pairs and triples of 6 requests (multi-range small / large / clamped / with suffix, single range, no Range) over two contents (40 and 300 bytes), both modifiers (body.Modifier also built from JSON), modes batch and batch2, 4 rounds; mode rewrite: a 40-byte file served, resized through every ordered pair of sizes from {0,10,40,100} and served again after each, every pair of six requests, with and without JSON construction; " + seqRule,
 	Run:  runSequence, NonTrivial: nonTrivialSeq, Classes: classesSeq,
 }
 
@@ -376,18 +507,43 @@ func TestSequenceMatrix(t *testing.T) {
 	staticAllocatesFromHeader(getTree(t))
 	contents := []SeqContent{{Len: 40, Seed: 1}, {Len: 300, Seed: 2}}
 	reqs := []SeqReq{
-		{0, "bytes=0-1,5-6"}, {1, "bytes=0-99,100-199,250-"}, {1, "bytes=10-20,290-400"}, {0, "bytes=-5,0-0,3-"}, {1, "bytes=7-77"}, {0, ""},
+		{Content: 0, Range: "bytes=0-1,5-6"}, {Content: 1, Range: "bytes=0-99,100-199,250-"}, {Content: 1, Range: "bytes=10-20,290-400"},
+		{Content: 0, Range: "bytes=-5,0-0,3-"}, {Content: 1, Range: "bytes=7-77"}, {Content: 0, Range: ""},
 	}
 	propSequenceMatrix.Enumerate(t, func(yield func(SeqCase) bool) {
-		for _, who := range []string{"static", "body"} {
+		// rewrite: a 40-byte file served, then resized through every ordered pair of
+		// sizes from {0, 10, 40, 100} and served again after each, for every pair of
+		// requests from the list below
+		rw := []string{"bytes=0-9,30-39", "bytes=5-", "", "bytes=-5", "bytes=50-59,90-", "bytes=0-0,9-200"}
+		sizes := []int{0, 10, 40, 100}
+		for _, viaJSON := range []bool{false, true} {
+			for _, s1 := range sizes {
+				for _, s2 := range sizes {
+					for a := range rw {
+						for b := range rw {
+							cs := SeqCase{Who: "static", Mode: "rewrite", ViaJSON: viaJSON, Rounds: 2, Contents: []SeqContent{{Len: 40, Seed: 3}}, Reqs: []SeqReq{
+								{Content: 0, Range: rw[a]},
+								{Content: 0, Range: rw[b], Rewrite: &SeqContent{Len: s1, Seed: 4}},
+								{Content: 0, Range: rw[a], Rewrite: &SeqContent{Len: s2, Seed: 5}},
+							}}
+							if !yield(cs) {
+								return
+							}
+						}
+					}
+				}
+			}
+		}
+		for _, who := range []string{"static", "body", "body-json"} {
 			for _, mode := range []string{"batch", "batch2"} {
 				for a := range reqs {
 					for b := range reqs {
-						if !yield(SeqCase{Who: who, Mode: mode, Rounds: 4, Contents: contents, Reqs: []SeqReq{reqs[a], reqs[b]}}) {
+						w, vj := strings.TrimSuffix(who, "-json"), strings.HasSuffix(who, "-json")
+						if !yield(SeqCase{Who: w, ViaJSON: vj, Mode: mode, Rounds: 4, Contents: contents, Reqs: []SeqReq{reqs[a], reqs[b]}}) {
 							return
 						}
 						for d := range reqs {
-							if !yield(SeqCase{Who: who, Mode: mode, Rounds: 4, Contents: contents, Reqs: []SeqReq{reqs[a], reqs[b], reqs[d]}}) {
+							if !yield(SeqCase{Who: w, ViaJSON: vj, Mode: mode, Rounds: 4, Contents: contents, Reqs: []SeqReq{reqs[a], reqs[b], reqs[d]}}) {
 								return
 							}
 						}
